@@ -568,3 +568,15 @@ pub fn sweep_race_scenario(p: &Profile) -> BoxedStrategy<Case> {
         })
         .boxed()
 }
+
+/// Cases over key tables in which pairs of keys share an index hash (distinct conflict hashes),
+/// under vetoing validators: the store's second line of defence - the validator is asked again when
+/// the processor stores an admitted item over a resident entry - is only reachable there.
+pub fn collide_veto_scenario(p: &Profile) -> BoxedStrategy<Case> {
+    let mut p2 = p.clone();
+    p2.layout = Layout::Collide;
+    p2.keys = (2, 6);
+    p2.validators = vec![Validator::Never, Validator::TagGe, Validator::TagEven, Validator::TagDiffers];
+    p2.w.remove = 16;
+    case_strategy(&p2)
+}
